@@ -358,6 +358,12 @@ def r6_condense_add(ctx):
     for c in rebuilt:
         kw = {k.arg: astx.u(k.value) for k in c.keywords}
         lp = astx.enclosing(c, pm, ast.For)
+        if lp is None:
+            # ... or the generator of the comprehension that rebuilds the ballots
+            cur = c
+            while cur in pm and not isinstance(cur, astx.LCOMP):
+                cur = pm[cur]
+            lp = cur.generators[0] if isinstance(cur, astx.LCOMP) and len(cur.generators) == 1 and not cur.generators[0].ifs else None
         if lp is None or not isinstance(lp.target, ast.Tuple):
             good = False
             continue
